@@ -372,7 +372,7 @@ def minimise(scn, oracle):
 
 def minimise_corrupt(scn, oracle, judge, same_sig=True):
     """fewer faults, then (message scenarios) raw bytes with chunks removed / zeroed"""
-    dl = shrink.Deadline(150)
+    dl = shrink.Deadline(75)
     first = [f for f in judge(scn) if f["oracle"] == oracle]
     if not first:
         return scn
